@@ -52,6 +52,7 @@ def make_replayer():
                 'epigraph-variable': ['assembly'],
                 'epigraph-constraints': ['assembly'],
                 'expansion-constraints': ['assembly'],
+                'relation-direction': ['assembly'],
                 'expansion-variable': ['assembly'],
                 'expansion-objective': ['assembly'],
                 'expansion-frame': ['assembly'],
@@ -101,6 +102,16 @@ def run(report, tier, seed):
                       'modeling.py line %s' % o['line'],
                       by=o['by'], detail=o.get('detail'),
                       meta={'line': o['line']}))
+    from contracts.py import relational_spec
+    try:
+        for o in relational_spec.obligations():
+            if o['kind'] != 'relation-direction':
+                continue            # the others are C11's
+            report.add(Ob(o['id'], o['kind'], o['status'], o['text'],
+                          'modeling.py', by=o['by'], detail=o.get('detail'),
+                          meta={'line': o['line']}))
+    except KeyError as e:
+        report.error('function under contract no longer exists: %s' % e)
     report.replayer = make_replayer()
     from engine.checks import py_common
     py_common.demote_unconfirmed_shape_checks(
